@@ -110,6 +110,29 @@ def run(tier):
         Ob(s, f, Var('tag_len', 'param'), ('assume', 'ne', 0, 1), bad, ('assume', 'eq', 0, 1), 'odd tag length', rule=R),
         Ob(s, f, Var('data_len', 'loopexit'), ('assume', 'ne', 0), bad, ('assume', 'eq', 0), 'data length not representable in 15-nonce_len bytes', rule=R),
     ]
+    # SP 800-38C A.2.2 encoding of the associated-data length
+    u = build.load_unit(s)
+    from .. import irf as _irf
+    L = _irf.Layouts(u)
+    optr = L.field('br_ccm_context', 'ptr')[0]
+    obuf = L.field('br_ccm_context', 'buf')[0]
+    R = 'ccm-aad-length-encoding'
+    okargs = [(Var('nonce_len', 'param'), ('assume', 'eq', 12)), (Var('tag_len', 'param'), ('assume', 'eq', 16)), (Var('data_len', 'param'), ('assume', 'ult', 1000))]
+
+    def enc(ptr, b0=None, b1=None):
+        es = [E(fold.expect_stores_only, 'ctx->ptr := %d' % ptr, 0, optr, {ptr})]
+        if b0 is not None:
+            es.append(E(fold.expect_stores_only, 'buf[0] := 0x%02X' % b0, 0, obuf, {b0, b0 - 256}))
+            es.append(E(fold.expect_stores_only, 'buf[1] := 0x%02X' % b1, 0, obuf + 1, {b1, b1 - 256}))
+        return ALL(*es)
+    obs += [
+        Ob(s, f, Var('aad_len', 'param'), ('assume', 'eq', 0), enc(0), None, 'no AAD: no length header', rule=R, extra_hyps=okargs),
+        Ob(s, f, Var('aad_len', 'param'), ('assume', 'ult', 0xFF00), enc(2), None, '0 < a < 2^16-2^8: 2-byte length', rule=R,
+           extra_hyps=okargs + [(Var('aad_len', 'param'), ('assume', 'ugt', 0))]),
+        Ob(s, f, Var('aad_len', 'param'), ('assume', 'uge', 0xFF00), enc(6, 0xFF, 0xFE), None, '2^16-2^8 <= a < 2^32: FF FE + 32-bit length', rule=R,
+           extra_hyps=okargs + [(Var('aad_len', 'param'), ('assume', 'ult', 1 << 32))]),
+        Ob(s, f, Var('aad_len', 'param'), ('assume', 'uge', 1 << 32), enc(10, 0xFF, 0xFF), None, 'a >= 2^32: FF FF + 64-bit length', rule=R, extra_hyps=okargs),
+    ]
     R = 'aead-check-tag'
     obs += [
         Ob('src/aead/gcm.c', 'br_gcm_check_tag', Call('br_gcm_check_tag_trunc', pred=lambda F, i: i['ops'][2] == {'k': 'c', 'v': 16, 'w': 64}),
@@ -126,5 +149,5 @@ def run(tier):
     tag_compare_shape(chk, 'src/aead/gcm.c', 'br_gcm_check_tag_trunc', 'br_gcm_get_tag', 'len')
     tag_compare_shape(chk, 'src/aead/eax.c', 'br_eax_check_tag_trunc', 'br_eax_get_tag', 'len')
     tag_compare_shape(chk, 'src/aead/ccm.c', 'br_ccm_check_tag', 'br_ccm_get_tag', 'get_tag()')
-    chk.floor('obligations', len(chk.obls), 14)
+    chk.floor('obligations', len(chk.obls), 18)
     return chk.finish()
